@@ -61,6 +61,7 @@ def gen_cases(ctx, n):
                     t = ctx.rng.choice(outside)
                     c["ops"].append(["set", t, ["expr", ["callsum", ["f", [fstep, "sum"]], cp]], ctx.rng.choice(mc.ROUTES)])
                     free = [p for p in free if p != t]
+                    defined.add(json.dumps(flat(t)))
                     if not free:
                         continue
         k = ctx.rng.choice([1, 1, 2, 2, 3, 4])
